@@ -30,7 +30,7 @@ def run(tier):
     verdict = vf.Verdict(PID)
     try:
         # design level: the KV index rule of the specification never misses a change (all histories up to the bound)
-        depth = 4 if tier == "quick" else 6
+        depth = 4 if tier == "quick" else 5
         cfg = open(os.path.join(vf.SPEC, "StoreMC_c06kv.cfg")).read().replace("MaxDepth = 5", "MaxDepth = %d" % depth)
         m = vf.tlc_mc("StoreMC", "mc.cfg", files={"mc.cfg": cfg}, timeout=2400, heap="16g", workers=min(12, vf.NCPU))
         params = [dict(n=15, len=120, mix="rotate")] if tier == "quick" else [dict(n=120, len=200, mix="rotate"), dict(n=40, len=200, mix="kv")]
